@@ -16,6 +16,12 @@ An operation is a list: [kind, args…]
     xverb F x v         ["folder",F,"file",x,v]
     sverb F x v         ["file",F,x,v]
     pre / tick          pre_timestep / apply_timestep
+    raw [path…]         any request path below file_system (truncated, over-long, misspelt): must answer like the model
+    api_create F x force   FileSystem.create_file(file_name=x, folder_name=F, force=force)       (Python API)
+    api_copy F x G / api_move F x G     FileSystem.copy_file / move_file
+    api_add F x force   get_folder(F).add_file(File(name=x), force)
+    api_dfid wf wx / api_dfoid wf / api_rmid wf wx   delete_file_by_id / delete_folder_by_id / Folder.remove_file_by_id; the
+                        uuid is addressed by position: "L<k>" k-th live entry, "D<k>" k-th deleted entry, "X" none
 Names are plain tokens; "" (empty) is written "~" on the model's wire.
 """
 from __future__ import annotations
@@ -34,6 +40,8 @@ FORCE_VALUES = [False, True, "create", "false", "", 0, 1, "True"]
 # op kind -> action discriminator (only on the node surface)
 FILE_ACTION = {v: f"node-file-{v}" for v in VERBS}
 FOLDER_ACTION = {v: f"node-folder-{v}" for v in ("scan", "checkhash", "repair", "restore")}
+API_WIRE = {"api_create": "create", "api_copy": "copy", "api_move": "move", "api_add": "add", "api_dfid": "dfid",
+            "api_dfoid": "dfoid", "api_rmid": "rmid"}
 
 
 def w(n: str) -> str:
@@ -45,15 +53,22 @@ def op_line(op: list) -> str:
     """The real request path, space separated ("~" = empty name, force as Python truthiness 1/0); ticks by name."""
     if op[0] in ("pre", "tick"):
         return op[0]
+    if op[0] == "raw":
+        return " ".join(["req"] + [w(str(t)) for t in op[1]])
+    if op[0].startswith("api_"):
+        args = list(op[1:])
+        if op[0] in ("api_create", "api_add"):
+            args[2] = "1" if args[2] else "0"
+        return " ".join(["api", API_WIRE[op[0]]] + [w(str(t)) for t in args])
     req = _request(op)
     if op[0] == "cfile":
         req = req[:4] + ["1" if req[4] else "0"]
-    return " ".join(w(str(t)) for t in req)
+    return " ".join(["req"] + [w(str(t)) for t in req])
 
 
 def model_lines(case: dict) -> List[str]:
-    d = case.get("restore_duration")
-    return ["reset", f"new {'-' if d is None else d}"] + [op_line(op) for op in case["ops"]]
+    d, sc = case.get("restore_duration"), case.get("scan_duration")
+    return ["reset", f"new {'-' if d is None else d} {'-' if sc is None else sc}"] + [op_line(op) for op in case["ops"]]
 
 
 # ------------------------------------------------------------------------------------------ canonical form
@@ -129,7 +144,7 @@ def action_for(op: list) -> Optional[Tuple[str, dict]]:
 
 
 def _file_s(f) -> str:
-    return f"#{f.uuid}:{w(f.name)}:{1 if f.deleted else 0}"
+    return f"#{f.uuid}:{w(f.name)}:{1 if f.deleted else 0}:a{f.num_access}"
 
 
 def _routes_s(rm, owners) -> str:
@@ -137,17 +152,19 @@ def _routes_s(rm, owners) -> str:
     return "{" + ",".join(f"{w(k)}>#{by_rm.get(id(rt.func), 'dangling')}" for k, rt in rm.request_types.items()) + "}"
 
 
-def _folder_s(g) -> str:
-    owners = list(g.files.values()) + list(g.deleted_files.values())
-    return (f"#{g.uuid}:{w(g.name)}:{1 if g.deleted else 0}:{g.restore_countdown}/{g.restore_duration}:("
+def _folder_s(g, owners) -> str:
+    return (f"#{g.uuid}:{w(g.name)}:{1 if g.deleted else 0}:{g.restore_countdown}/{g.restore_duration}:"
+            f"s{g.scan_countdown}/{g.scan_duration}:("
             + ",".join(_file_s(f) for f in g.files.values()) + "):(" + ",".join(_file_s(f) for f in g.deleted_files.values())
             + "):" + _routes_s(g._file_request_manager, owners))
 
 
 def dump_impl(fs) -> str:
     owners = list(fs.folders.values()) + list(fs.deleted_folders.values())
-    return ("L[" + ";".join(_folder_s(g) for g in fs.folders.values()) + "] D["
-            + ";".join(_folder_s(g) for g in fs.deleted_folders.values()) + "] R" + _routes_s(fs._folder_request_manager, owners)
+    # a file route may outlive the file's stay in that folder (move_file): resolve it over every file of the file system
+    files = [f for g in owners for f in list(g.files.values()) + list(g.deleted_files.values())]
+    return ("L[" + ";".join(_folder_s(g, files) for g in fs.folders.values()) + "] D["
+            + ";".join(_folder_s(g, files) for g in fs.deleted_folders.values()) + "] R" + _routes_s(fs._folder_request_manager, owners)
             + f" c={fs.num_file_creations} d={fs.num_file_deletions}")
 
 
@@ -171,6 +188,13 @@ def oracle(fs, after_pre: bool) -> List[str]:
     if after_pre and (fs.num_file_creations != 0 or fs.num_file_deletions != 0
                       or st["num_file_creations"] != 0 or st["num_file_deletions"] != 0):
         bad.append("counters-zero-at-tick-start")
+    owner_of = {}
+    for g in list(fs.folders.values()) + list(fs.deleted_folders.values()):
+        for f in list(g.files.values()) + list(g.deleted_files.values()):
+            if owner_of.setdefault(f.uuid, g.uuid) != g.uuid:  # the hypothesis of C15_api_inv_step for move_file
+                bad.append("file-in-two-folders")
+    if after_pre and any(f.num_access != 0 for g in fs.folders.values() for f in g.files.values()):
+        bad.append("num-access-zero-at-tick-start")
     for g in list(fs.folders.values()) + list(fs.deleted_folders.values()):
         names = [f.name for f in g.files.values()]
         if len(set(names)) != len(names):
@@ -204,7 +228,7 @@ def describe_impl(fs) -> str:
 class Impl:
     """One real file system on the chosen surface."""
 
-    def __init__(self, surface: str, restore_duration: Optional[int]):
+    def __init__(self, surface: str, restore_duration: Optional[int], scan_duration: Optional[int] = None):
         self.surface = surface
         self.t = 0
         if surface == "fs":
@@ -225,6 +249,52 @@ class Impl:
             self.fs = pc.file_system
         if restore_duration is not None:  # as PrimaiteGame.from_config does for `folder_restore_duration`
             self.fs._default_folder_restore_duration = restore_duration
+        if scan_duration is not None:
+            self.fs._default_folder_scan_duration = scan_duration
+
+    def _folder_at(self, wf: str):
+        d = self.fs.folders if wf[:1] == "L" else self.fs.deleted_folders if wf[:1] == "D" else {}
+        vals = list(d.values())
+        k = int(wf[1:]) if wf[1:].isdigit() else -1
+        return vals[k] if 0 <= k < len(vals) else None
+
+    def _file_at(self, wf: str, wx: str):
+        g = self._folder_at(wf)
+        if g is None:
+            return None
+        d = g.files if wx[:1] == "L" else g.deleted_files if wx[:1] == "D" else {}
+        vals = list(d.values())
+        k = int(wx[1:]) if wx[1:].isdigit() else -1
+        return vals[k] if 0 <= k < len(vals) else None
+
+    def api(self, op: list) -> str:
+        """A direct Python call; "success" = it returned."""
+        k, fs = op[0], self.fs
+        if k == "api_create":
+            fs.create_file(file_name=op[2], folder_name=op[1], force=op[3])
+        elif k == "api_copy":
+            fs.copy_file(src_folder_name=op[1], src_file_name=op[2], dst_folder_name=op[3])
+        elif k == "api_move":
+            fs.move_file(src_folder_name=op[1], src_file_name=op[2], dst_folder_name=op[3])
+        elif k == "api_add":
+            g = fs.get_folder(op[1])
+            if g is not None:
+                from primaite.simulator.file_system.file import File
+                g.add_file(File(name=op[2], file_type=None, folder_id=g.uuid, folder_name=g.name, sim_root=fs.sim_root,
+                                sys_log=fs.sys_log), force=op[3])
+        elif k == "api_dfid":
+            g, f = self._folder_at(op[1]), self._file_at(op[1], op[2])
+            fs.delete_file_by_id(folder_uuid=g.uuid if g else "no-such-folder", file_uuid=f.uuid if f else "no-such-file")
+        elif k == "api_dfoid":
+            g = self._folder_at(op[1])
+            fs.delete_folder_by_id(folder_uuid=g.uuid if g else "no-such-folder")
+        elif k == "api_rmid":
+            g, f = self._folder_at(op[1]), self._file_at(op[1], op[2])
+            if g is not None and g.uuid in fs.folders:
+                g.remove_file_by_id(f.uuid if f else "no-such-file")
+        else:
+            raise ValueError(op)
+        return "success"
 
     def apply(self, op: list) -> str:
         k = op[0]
@@ -235,6 +305,12 @@ class Impl:
             (self.sim or self.fs).apply_timestep(self.t)
             self.t += 1
             return "success"
+        if k.startswith("api_"):
+            return self.api(op)
+        if k == "raw":
+            if self.sim is None:
+                return self.fs.apply_request(list(op[1])).status
+            return self.sim.apply_request(["network", "node", "pc", "file_system"] + list(op[1])).status
         if self.sim is None:
             return self.fs.apply_request(_request(op)).status
         act = action_for(op) if self.surface == "action" else None
@@ -250,15 +326,16 @@ class Impl:
 
 def run_impl(case: dict) -> Tuple[List[str], List[List[str]]]:
     """Output lines aligned with model_lines(case), and the oracle's verdict after every operation."""
-    impl = Impl(case["surface"], case.get("restore_duration"))
+    impl = Impl(case["surface"], case.get("restore_duration"), case.get("scan_duration"))
     out = ["ok", "ok"]
     verdicts: List[List[str]] = []
     for op in case["ops"]:
         try:
             status = impl.apply(op)
-        except Exception as e:  # a request must answer, not raise
+        except Exception as e:  # a well-formed request must answer, not raise
             status = "raised"
-            verdicts.append(["raised:" + type(e).__name__])
+            # a direct API call may raise and a malformed path is C05's matter: there the answer is only compared
+            verdicts.append([] if (op[0].startswith("api_") or op[0] == "raw") else ["raised:" + type(e).__name__])
             out.append(f"{status} | {dump_impl(impl.fs)} | {describe_impl(impl.fs)}")
             continue
         out.append(f"{status} | {dump_impl(impl.fs)} | {describe_impl(impl.fs)}")
@@ -321,7 +398,72 @@ def gen_op(rng: Rng, folders: List[str], files: List[str]) -> list:
     return ["tick"]
 
 
-def gen_case(rng: Rng, max_ops: int = 30) -> dict:
+def gen_api_op(rng: Rng, folders: List[str], files: List[str]) -> list:
+    F, G, x = rng.choice(folders), rng.choice(folders), rng.choice(files)
+    k = rng.below(100)
+
+    def pos():
+        return rng.choice(["L0", "L1", "L1", "L2", "D0", "D1", "X"])
+    if k < 16:
+        return ["api_create", F, x, rng.choice([False, True])]
+    if k < 40:
+        return ["api_copy", F, x, G]
+    if k < 64:
+        return ["api_move", F, x, G]
+    if k < 76:
+        return ["api_add", F, x, rng.choice([False, True, True])]
+    if k < 86:
+        return ["api_dfid", pos(), pos()]
+    if k < 93:
+        return ["api_dfoid", pos()]
+    return ["api_rmid", pos(), pos()]
+
+
+def gen_raw_op(rng: Rng, folders: List[str], files: List[str]) -> list:
+    """A request path that is truncated, over-long, misspelt or empty (the force element is written 1/0)."""
+    while True:
+        op = gen_op(rng, folders, files)
+        if op[0] not in ("pre", "tick"):
+            break
+    base = _request(op)
+    if op[0] == "cfile":
+        base[4] = 1 if base[4] else 0
+    m = rng.below(100)
+    if m < 55:
+        path = base[: rng.range(0, len(base) - 1)]
+    elif m < 75:
+        path = base + [rng.choice(["extra", "scan", "", "1"])]
+    elif m < 92:
+        j = rng.below(min(len(base), 4))
+        path = base[:j] + [rng.choice(["zzz", "files", "Folder", "delete", "file"])] + base[j + 1:]
+    else:
+        path = []
+    return ["raw", path]
+
+
+def api_alphabet() -> List[list]:
+    """Bounded-exhaustive family C: the API entry points against the requests that set up / disturb their targets."""
+    return [["cfile", "fa", "a", False], ["dfile", "fa", "a"], ["rfile", "fa", "a"], ["dfolder", "fb"],
+            ["api_copy", "fa", "a", "fb"], ["api_copy", "fa", "a", "fa"], ["api_move", "fa", "a", "fb"],
+            ["api_move", "fb", "a", "fa"], ["api_add", "fa", "a", True], ["api_add", "fb", "a", False],
+            ["api_create", "fa", "a", False], ["api_create", "fb", "a", True], ["api_dfid", "L1", "L0"],
+            ["api_dfoid", "L1"], ["api_rmid", "L1", "L0"], ["pre"]]
+
+
+CHURN = [["cfile", "fa", "a", False], ["cfile", "fa", "a", False], ["dfile", "fa", "a"], ["dfile", "fa", "a"], ["fdel", "fa", "a"],
+         ["rfile", "fa", "a"], ["fverb", "fa", "restore"], ["fverb", "fa", "restore"], ["fverb", "fa", "scan"], ["tick"], ["tick"],
+         ["tick"], ["pre"], ["dfolder", "fa"], ["rfolder", "fa"], ["cfolder", "fa"], ["xverb", "fa", "a", "scan"],
+         ["xverb", "fa", "a", "restore"], ["api_copy", "fa", "a", "fa"], ["api_move", "fa", "a", "root"],
+         ["api_move", "root", "a", "fa"], ["access", "fa", "a"], ["fverb", "fa", "repair"]]
+
+
+def gen_churn_case(rng: Rng) -> dict:
+    """Namesake churn: one folder, one file name, created / deleted / re-created while folder restores and scans run out."""
+    return {"surface": rng.choice(["fs", "fs", "node"]), "restore_duration": rng.choice([1, 1, 2, 3]),
+            "scan_duration": rng.choice([None, 1, 2]), "ops": [list(rng.choice(CHURN)) for _ in range(rng.range(6, 16))]}
+
+
+def gen_case(rng: Rng, max_ops: int = 30, api: bool = False) -> dict:
     surface = rng.choice(["fs", "fs", "node", "action", "action"])
     # mostly a tight vocabulary (collisions are the point), sometimes the wide one with odd names
     if rng.chance(3, 4):
@@ -331,5 +473,14 @@ def gen_case(rng: Rng, max_ops: int = 30) -> dict:
     n = rng.range(4, max_ops)
     # mostly-valid: start from a populated file system so that deletes/restores/verbs have something to act on
     setup = [["cfile", rng.choice(folders), rng.choice(files), False] for _ in range(rng.range(0, 3))]
-    return {"surface": surface, "restore_duration": rng.choice([None, None, 0, 1, 1, 2, 3]),
-            "ops": setup + [gen_op(rng, folders, files) for _ in range(n)]}
+    def one():
+        if api and rng.chance(1, 3):
+            return gen_api_op(rng, folders, files)
+        if api and rng.chance(1, 6):
+            return gen_raw_op(rng, folders, files)
+        return gen_op(rng, folders, files)
+    case = {"surface": surface, "restore_duration": rng.choice([None, None, 0, 1, 1, 2, 3]),
+            "ops": setup + [one() for _ in range(n)]}
+    if api:
+        case["scan_duration"] = rng.choice([None, None, 0, 1, 2])
+    return case
